@@ -82,6 +82,10 @@ def scripted_programs(bpc):
         # for an end mark), as the last thing that happens to it (C06-m8 / C05-m7: the zero fill stopped with the new contents)
         [["makedir", "/SPOOL"]] + [["create", f"/SPOOL/F{i:03d}.DAT"] for i in range(max(1, min(bpc // 32 - 2, 254)))] +
         [["create", "/SPOOL/TMP1.DAT"], ["create", "/SPOOL/TMP2.DAT"], ["remove", "/SPOOL/TMP1.DAT"], ["remove", "/SPOOL/TMP2.DAT"], ["listdir", "/SPOOL"]],
+        # a handle parked at a cluster-aligned end of file while the file grows through a SECOND handle, then written through again: whatever the
+        # bytes, no cluster may be left in use without an owner (C04-m9: "the cursor behind a full last cluster" taken for "the end of the chain")
+        [["makedir", "/two"], ["open", "h1", "/two/SHARED.BIN", "w"], ["write", "h1", "31" * (2 * bpc)], ["open", "h2", "/two/SHARED.BIN", "a"],
+         ["write", "h2", "32" * 100], ["hclose", "h2"], ["write", "h1", "33" * 10], ["hclose", "h1"], ["getsize", "/two/SHARED.BIN"], ["listdir", "/two"]],
     ]
 
 
@@ -219,7 +223,7 @@ def run_histories(ctx, oracles, nprog, nops, kind="namespace", vol_filter=None, 
                     case = history.Case(label, img, progs[si] + ([["closefs"]] if add_close else []), mount=mnt, meta=meta)
                     r = history.run_case(ctx, case, oracles=oracles, model=m, use_model=use_model, remount_every=remount_every)
                     ctx.dist["scripted"] += 1
-                    if add_close and (si % 2 == 0 or si >= len(progs) - 2):      # (the last two programs are there FOR their second session)
+                    if add_close and (si % 2 == 0 or si >= len(progs) - 3):      # (the last programs are there FOR their second session)
                         second_session(ctx, case, r, oracles, m, use_model, remount_every)
         # (the fixed cases before the random programs: they must not fall victim to the time budget)
         if fill is None:
